@@ -9,6 +9,8 @@
    [pp_min pe e] = flat (par false pe 0 e), [pp_full pe e] = fully parenthesised writing;
    [wf e] = group-free tree derivable from the grammar (lvalues where required, right operand of
    concatenation starts with an operand-only token, no bare /re/ after ~, no $$x++).
+   Fix round: _cond now reads the branches of ?: with the tower's own expr()/printExpr() (repair of
+   F-C04-1/2), so [fits]/[ok] treat the branches in the tower of the condition.
    [p_lv n LExpr pc None ts] = the model of parser.expr() (pc=false) / parser.printExpr() (pc=true)
    with fuel n. *)
 From Verif Require Import Lib.Base Model.ExprAst Model.ExprParser Proofs.ExprParserMono Proofs.ExprParserRel
@@ -48,31 +50,34 @@ Theorem C04_main : forall e pe rest,
 Proof. exact pp_min_full_parse. Qed.
 Print Assumptions C04_main.
 
-(* print a1, .., an > dest: > is the redirection — provided > may follow the last argument as
-   written, which excludes exactly an unparenthesised ?: at its right edge (F-C04-1) *)
-Theorem C04_print_gt_partial : forall fl a args dest rest,
+(* print a1, .., an > dest: > is the redirection, never a comparison — for ALL well-formed arguments
+   and both writings.  This is the full statement that was refuted before the repair of F-C04-1
+   (the guard "the last argument does not end in an unparenthesised ?:" is gone). *)
+Definition C04_print_gt_full_statement : Prop := print_gt_full_statement.
+Theorem C04_print_gt : C04_print_gt_full_statement.
+Proof. exact print_gt_is_redirect. Qed.
+Print Assumptions C04_print_gt.
+
+(* the same for a pipe (formerly refuted, F-C04-2) *)
+Definition C04_print_pipe_full_statement : Prop := print_pipe_full_statement.
+Theorem C04_print_pipe : C04_print_pipe_full_statement.
+Proof. exact print_pipe_is_redirect. Qed.
+Print Assumptions C04_print_pipe.
+
+(* all three redirection tokens > >> | at once *)
+Theorem C04_print_redirects : forall rt rd fl a args dest rest,
+  redir_of rt = Some rd ->
   all_wf wf (a :: args) -> wf dest ->
   let args' := map (par fl true 0) (a :: args) in
   let dest' := par fl false 0 dest in
-  ok true (last args' (ENum [])) TGreater = true ->
   tok_cont false (hd_tok rest) = 0%nat ->
   exists n0, forall n, (n0 <= n)%nat ->
-    p_simple_stmt n (TPrint :: commas flat args' ++ TGreater :: flat dest' ++ rest)
-    = POk (TopPrint false RGreater (Some dest') args', rest).
-Proof. exact print_gt_is_redirect. Qed.
-Print Assumptions C04_print_gt_partial.
+    p_simple_stmt n (TPrint :: commas flat args' ++ rt :: flat dest' ++ rest)
+    = POk (TopPrint false rd (Some dest') args', rest).
+Proof. exact print_redirects. Qed.
+Print Assumptions C04_print_redirects.
 
-(* the unguarded statements are false on the faithful model *)
-Definition C04_print_gt_full_statement : Prop := print_gt_full_statement.
-Theorem C04_print_gt_refuted : ~ C04_print_gt_full_statement.      (* print 1 ? 2 : 3 > "f" *)
-Proof. exact print_gt_refuted. Qed.
-Print Assumptions C04_print_gt_refuted.
-
-Definition C04_print_pipe_full_statement : Prop := print_pipe_full_statement.
-Theorem C04_print_pipe_refuted : ~ C04_print_pipe_full_statement.  (* print 1 ? 2 : 3 | "f" is rejected *)
-Proof. exact print_pipe_refuted. Qed.
-Print Assumptions C04_print_pipe_refuted.
-
+(* F-C04-3 (deliberate, left as it is): the table statement without the $$x++ guard of wf is false *)
 Definition C04_table_full_statement : Prop := table_full_statement. (* wf without the $$x++ guard *)
 Theorem C04_table_refuted : ~ C04_table_full_statement.            (* $$x++ is read as $(($x)++) *)
 Proof. exact table_full_refuted. Qed.
@@ -120,12 +125,20 @@ Proof. eexists. split; vm_compute; reflexivity. Qed.
 Example C04_ex_parse_full : exists g, parse_expr false (pp_full false ex_tree) = POk (g, []) /\ strip g = ex_tree.
 Proof. eexists. split; vm_compute; reflexivity. Qed.
 
-(* the guard of C04_print_gt_partial holds for  print 1 + 2, x > "f"  and fails for  print 1 ? 2 : 3 > "f" *)
-Example C04_ex_guard_ok :
-  ok true (last (map (par false true 0) [EBinary BAdd (ENum [49]) (ENum [50]); EVar [120]]) (ENum [])) TGreater = true.
-Proof. vm_compute. reflexivity. Qed.
-Example C04_ex_guard_fails :
-  ok true (last (map (par false true 0) [w_cond]) (ENum [])) TGreater = false.
+(* the former witnesses of F-C04-1/2 on the model of the repaired parser:
+   print 1 ? 2 : 3 > "f"  redirects,  print 1 ? 2 : 3 | "f"  pipes *)
+Example C04_ex_print_cond_gt :
+  p_simple_stmt 60 (TPrint :: pp_min true w_cond ++ TGreater :: pp_min false w_dest ++ [TRBrace])
+  = POk (TopPrint false RGreater (Some w_dest) [w_cond], [TRBrace]).
+Proof. exact w_print_gt_computed. Qed.
+Example C04_ex_print_cond_pipe :
+  p_simple_stmt 60 (TPrint :: pp_min true w_cond ++ TPipe :: pp_min false w_dest ++ [TRBrace])
+  = POk (TopPrint false RPipe (Some w_dest) [w_cond], [TRBrace]).
+Proof. exact w_print_pipe_computed. Qed.
+(* and a comparison inside a branch of a print argument is written with parentheses *)
+Example C04_ex_print_cond_branch :
+  pp_min true (ECond (ENum [49]) (EBinary BGt (ENum [50]) (ENum [49])) (ENum [51]))
+  = [TNumber [49]; TQuestion; TLParen true; TNumber [50]; TGreater; TNumber [49]; TRParen; TColon; TNumber [51]].
 Proof. vm_compute. reflexivity. Qed.
 
 (* getline: "a" "b" | getline  is  ("a" "b") | getline, and  x = "c" | getline y  assigns the result *)
